@@ -145,7 +145,7 @@ def history(ctx, rng, M, n_runs, CFG=CFG, CMDS=CMDS, wide=False):
 def run(ctx, scale):
     import random
     rng = ctx.rng
-    plan = [(2, 8), (1, 4), (3, 11), (10, 13)] if ctx.quick() else [(m, 3 * m + 2) for m in (1, 2, 3, 5)] * 8 + [(10, 23), (11, 25), (12, 14)] * 2
+    plan = [(2, 8), (1, 4), (3, 11), (10, 13), (100, 3)] if ctx.quick() else [(100, 4), (1000, 3)] + [(m, 3 * m + 2) for m in (1, 2, 3, 5)] * 8 + [(10, 23), (11, 25), (12, 14)] * 2
     for (M, n) in plan * scale:
         history(ctx, random.Random(rng.getrandbits(32)), M, n)
     # a configuration with hundreds of targets: the stored result record is far larger than any I/O buffer
